@@ -301,6 +301,7 @@ def run_record_end(rep, facts):
         n += 1
         rec = None
         rem_empty = None
+        drained = False
         for (e, lab) in nonconst_conds(r):
             pe = ir.peel(e)
             if _rec_end_truth(facts, pe, lab, complete_tok) is not None:
@@ -309,11 +310,16 @@ def run_record_end(rep, facts):
                 rem_empty = (lab[0] == 'otherwise')
             elif pe[0] == 'call' and pe[1].endswith("is_empty") and self_field(pe[2][0], 'buffer'):
                 pass
+            elif pe[0] == 'call' and pe[1].endswith("is_empty") and pe[2] and (is_param(pe[2][0], 'data') or (
+                    ir.peel(pe[2][0])[0] == 'call' and ir.peel(pe[2][0])[1] == PI + "::parse_buffered")):
+                # an early exit for "nothing (left) to parse": the data not yet handed to the pair decoder is empty on the true edge
+                if lab[0] == 'otherwise' or (lab[0] == 'case' and lab[1] != 0):
+                    drained = True
             elif pe[0] == 'discr' and ir.peel(pe[1])[0] == 'call' and ir.peel(pe[1])[1].endswith("::next"):
                 pass        # the pair decoder driven by an explicit loop instead of `extend(iterator)`
             else:
                 bad.append("unexpected condition %s" % ir.show(pe)[:60])
-        ext = [c for c in r.calls if c[0].endswith("Extend>::extend") and self_field(c[1][0], 'buffer')]
+        ext = [c for c in r.calls if (c[0].endswith("Extend>::extend") or c[0].endswith("Vec::extend_from_slice")) and self_field(c[1][0], 'buffer')]
         ret = ir.peel(r.ret, casts=False)
         if as_tail:
             # the result is the unconsumed tail of data (parse_buffered's convention): [] = everything consumed
@@ -324,7 +330,12 @@ def run_record_end(rep, facts):
             whole = is_len_of(ret, lambda x: is_param(x, 'data'))
             part = ret[0] == 'bin' and ret[1] == 'Sub' and is_len_of(ret[2], lambda x: is_param(x, 'data')) and ir.peel(ret[3])[0] == 'call' and ir.peel(ret[3])[1].endswith("::len")
             rem_src = ir.peel(ir.peel(ret[3])[2][0]) if part and ir.peel(ret[3])[2] else None
-        if rec is True and rem_empty is False:
+        if drained and not ext and rec is not True:
+            # nothing was left to decode: everything handed in counts as consumed (len, or len - 0)
+            classes.add('drained')
+            if not (whole or part):
+                bad.append("nothing left to parse: the whole slice must be reported consumed")
+        elif rec is True and rem_empty is False:
             classes.add('buffered')
             tail = ir.peel(ext[0][1][1]) if ext else None
             if len(ext) != 1 or not (tail[0] == 'call' and tail[1].endswith("into_inner")) or not whole:
@@ -341,7 +352,7 @@ def run_record_end(rep, facts):
                 bad.append("no record end / nothing left: expected consumed = len - unparsed remainder and no buffering")
     if bad:
         rep.violation("R6.5", "parse_stream/record-end-buffering", "; ".join(sorted(set(bad))), b.loc())
-    elif classes == {'buffered', 'pending-pair', 'plain'}:
+    elif classes - {'drained'} == {'buffered', 'pending-pair', 'plain'}:
         rep.ok("R6.5", "parse_stream/record-end-buffering", "rec_end && remainder non-empty => buffer.extend(remainder), consumed = len; otherwise consumed = len - remainder (%d paths)" % n, b.loc())
     else:
         rep.undecidable("R6.5", "parse_stream/record-end-buffering", "outcome classes seen: %s" % sorted(classes), b.loc())
@@ -362,7 +373,7 @@ def run_record_end(rep, facts):
             if _rec_end_truth(facts, e, lab, complete_tok) is not None:
                 rec = _rec_end_truth(facts, e, lab, complete_tok)
         ret = ir.peel(r.ret)
-        ext = [c for c in r.calls if c[0].endswith("Extend>::extend") and self_field(c[1][0], 'buffer')]
+        ext = [c for c in r.calls if (c[0].endswith("Extend>::extend") or c[0].endswith("Vec::extend_from_slice")) and self_field(c[1][0], 'buffer')]
         if cleared:
             cls['complete'] = cls.get('complete', 0) + 1     # how the pair reaches the map is C01's business (R1.1 / R1.2)
             continue
